@@ -598,6 +598,12 @@ class SpecMixin(object):
     return rs[0][1]
 
   def spec_obligation(self, st, expr, name, kind, extra=None, where=''):
+    node = self.parse_spec(expr)
+    if isinstance(node, ast.BoolOp) and isinstance(node.op, ast.And):
+      # one obligation per top-level conjunct: smaller queries are both faster and more stable
+      for k, part in enumerate(node.values):
+        self.spec_obligation(st, part, '%s#%d' % (name, k + 1) if len(node.values) > 1 else name, kind, extra, where)
+      return
     for s, b in self.eval_spec(st, expr, extra):
       self.ctx.obligations.append(Obligation(name, kind, s.pc, b, where,
                                              {'expr': expr if isinstance(expr, str) else ast.unparse(expr)}))
